@@ -365,7 +365,7 @@ Print Assumptions C17_window_examples.
    the three _explicit theorems). *)
 From S4.Base Require Chunk.
 From S4.Model Require Lines Caches RetainCaches.
-From S4.Proofs Require CachesProofs RetainKeepsUp RetainNoErr RetainCachesAgree RetainCachesLayout.
+From S4.Proofs Require CachesProofs RetainKeepsUp RetainNoErr RetainFar RetainCachesAgree RetainCachesLayout.
 
 (* what "agree" says: the five counters of summary() equal the five marks, the three stores have
    the same sizes, and no release failed *)
@@ -528,6 +528,47 @@ Theorem C17_no_failed_release_example :
   0 < derr (run cur_plain (init ms) (sched_lag 66 n)).
 Proof. exact RetainNoErr.no_err_example. Qed.
 Print Assumptions C17_no_failed_release_example.
+
+(* ... and WHEN no release fails: the geometric condition `far lag ms` — whenever the drop issued in the
+   iteration that finds message k (reference p = message k-1, candidates = stored messages m with
+   mlb m + 2 <= mfb p, provided 3 <= mfb p) reaches a message m, m lies at least lag messages before k —
+   is the exact complement of the recorded class of finding F9a ("drop distance < lag").  Under the
+   FIFO consumer lag messages behind (the furthest a channel of capacity lag - 2 lets it fall), for
+   every message sequence with consecutive keys, either policy, plain or streamed: the schedule is
+   admissible and NO release fails *)
+Theorem C17_far_explicit : forall lag ms, RetainFar.far lag ms <->
+  forall m p, In m ms -> In p ms -> 3 <= mfb p -> mlb m + 2 <= mfb p -> mkey m + lag <= mkey p + 1.
+Proof. exact (fun lag ms => iff_refl _). Qed.
+Print Assumptions C17_far_explicit.
+
+Theorem C17_far_no_failed_release : forall c lag ms, 1 <= lag -> map mkey ms = nseq 0 (length ms) ->
+  RetainFar.far lag ms ->
+  let evs := sched_lag lag (length ms) in
+  sched_ok lag c (init ms) evs = true /\ derr (run c (init ms) evs) = 0.
+Proof. exact RetainFar.cur_far_no_err. Qed.
+Print Assumptions C17_far_no_failed_release.
+
+(* hence, outside the recorded class, the CURRENT policy has the repaired bounds for messages and lines *)
+Theorem C17_far_bounded : forall bs span ml lag ms c, pol c = P_cur -> wf bs span ml ms -> 1 <= lag ->
+  map mkey ms = nseq 0 (length ms) -> RetainFar.far lag ms ->
+  let s := run c (init ms) (sched_lag lag (length ms)) in
+  derr s = 0 /\ hs s <= bound_syslines bs span /\ hl s <= bound_lines bs span ml lag.
+Proof. exact RetainFar.cur_far_bounded. Qed.
+Print Assumptions C17_far_bounded.
+
+(* the decidable form the check evaluates on its generated files *)
+Theorem C17_farb_sound : forall lag ms, RetainFar.farb lag ms = true -> RetainFar.far lag ms.
+Proof. exact RetainFar.farb_sound. Qed.
+Print Assumptions C17_farb_sound.
+
+(* the condition is tight on the example: 240 lines of 20 bytes at block size 512 have drop distance 28 *)
+Theorem C17_far_tight_example :
+  let ms := layout_msgs 512 RetainNoErr.far_layout in
+  RetainFar.farb 7 ms = true /\ RetainFar.farb 28 ms = true /\ RetainFar.farb 29 ms = false /\
+  derr (run cur_plain (init ms) (sched_lag 28 (length ms))) = 0 /\
+  0 < derr (run cur_plain (init ms) (sched_lag 29 (length ms))).
+Proof. vm_compute. repeat split; reflexivity. Qed.
+Print Assumptions C17_far_tight_example.
 
 Theorem C17_keeps_up_example :
   let ms := layout_msgs 64 ex_layout in
